@@ -200,17 +200,17 @@ const (
 
 // DiskOp describes one durable operation about to happen.
 type DiskOp struct {
-	Inst *Instance
-	N    int // ordinal of this durable operation on the instance's server (across incarnations)
-	Kind OpKind
-	Site string // raft function that issued it
-	Chain string // raft call chain, innermost first
-	Key  string
-	Val  uint64
-	Bytes []byte
-	Logs []*raft.Log
+	Inst     *Instance
+	N        int // ordinal of this durable operation on the instance's server (across incarnations)
+	Kind     OpKind
+	Site     string // raft function that issued it
+	Chain    string // raft call chain, innermost first
+	Key      string
+	Val      uint64
+	Bytes    []byte
+	Logs     []*raft.Log
 	Min, Max uint64
-	Snap *Snap
+	Snap     *Snap
 }
 
 var ErrInjected = errors.New("sim: injected store error")
